@@ -245,3 +245,24 @@ pub fn eval_inexact<X: DualNum<F> + Clone, F: num_dual::DualNumFloat>(p: &Poly, 
     let denom = v.clone() * v.clone() + c(1.7);
     u.clone() * v.clone() + bounded.clone() * v.clone() * c(0.9) + (u / denom) * c(2.3) + (bounded * c(0.5)).exp()
 }
+
+/// A function whose second and higher derivatives cancel analytically: a linear form plus terms that are identically
+/// zero but are evaluated in two different orders, (ab)(cd) - (ac)(bd) and sin s cos t + cos s sin t - sin(s + t).  What the
+/// code under test computes for its higher derivatives is rounding residue of either sign, with no symmetry and no
+/// relation between neighbouring entries - and that residue is what the drivers owe the caller, like any other value.
+pub fn eval_cancel<X: DualNum<F> + Clone, F: num_dual::DualNumFloat>(p: &Poly, q: &Poly, vars: &[X], style: u64) -> X {
+    let c = |v: f64| F::from_f64(v).expect("constant as F");
+    let mut lin = X::from_f64(0.7).expect("constant");
+    for (i, x) in vars.iter().enumerate() {
+        lin += x.clone() * c(0.3 + 0.1 * (i % 7) as f64);
+    }
+    let a = eval_generic(p, vars, style) * c(0.3) + c(0.7);
+    let b = eval_generic(q, vars, style ^ 0x55) * c(1.1) - c(0.45);
+    let s = a.clone() * c(0.125);
+    let t = b.clone() * c(0.2);
+    let cc = s.sin() + c(1.3);
+    let d = b.clone() * b.clone() + c(1.7);
+    let zero1 = (a.clone() * b.clone()) * (cc.clone() * d.clone()) - (a * cc) * (b * d);
+    let zero2 = s.sin() * t.cos() + s.cos() * t.sin() - (s + t).sin();
+    lin + zero1 + zero2
+}
